@@ -15,7 +15,8 @@ type pf1Site struct {
 	f    *core.Func
 	kind string // IDX SLC TA DIV NILOPT
 	node ast.Node
-	expr string
+	expr string // locals replaced by their types (rename-stable key)
+	raw  string // as written (for messages)
 	res  core.BoundsResult
 }
 
@@ -83,7 +84,7 @@ func (c *Ctx) pf1Sites(f *core.Func) []*pf1Site {
 			return
 		}
 		seen[n] = true
-		s := &pf1Site{f: f, kind: kind, node: n, expr: exprStr(n.(ast.Expr))}
+		s := &pf1Site{f: f, kind: kind, node: n, expr: normExpr(info, n.(ast.Expr)), raw: exprStr(n.(ast.Expr))}
 		s.res = decide(fa, info, kind, n, st, c)
 		out = append(out, s)
 	})
@@ -93,7 +94,7 @@ func (c *Ctx) pf1Sites(f *core.Func) []*pf1Site {
 			switch as.Tok {
 			case token.QUO_ASSIGN, token.REM_ASSIGN, token.SHL_ASSIGN, token.SHR_ASSIGN:
 				if tv, ok := info.Types[as.Rhs[0]]; ok && tv.Value == nil {
-					out = append(out, &pf1Site{f: f, kind: "DIV", node: as, expr: exprStr(as.Lhs[0]) + as.Tok.String() + exprStr(as.Rhs[0]),
+					out = append(out, &pf1Site{f: f, kind: "DIV", node: as, expr: normExpr(info, as.Lhs[0]) + as.Tok.String() + normExpr(info, as.Rhs[0]), raw: exprStr(as.Lhs[0]) + as.Tok.String() + exprStr(as.Rhs[0]),
 						res: core.BoundsResult{Why: "divisor/shift count is not a constant"}})
 				}
 			}
@@ -227,7 +228,7 @@ func runPF1(c *Ctx, rr *core.RuleResult, scope map[*core.Func]bool, fatal map[*c
 				}
 				continue
 			}
-			rr.Bad(f, key, s.node.Pos(), fmt.Sprintf("%s %s may panic%s: %s", s.kind, s.expr, where, s.res.Why))
+			rr.Bad(f, key, s.node.Pos(), fmt.Sprintf("%s %s may panic%s: %s", s.kind, s.raw, where, s.res.Why))
 		}
 	}
 	rr.Note("%d functions in scope", nf)
@@ -276,4 +277,16 @@ func unusedExceptions(inScope func(fn string) bool) []string {
 		}
 	}
 	return out
+}
+
+// DumpPF1 prints every site (tooling for maintaining the exception table).
+func DumpPF1(c *Ctx) {
+	for _, f := range c.P.Funcs {
+		if f.Generated {
+			continue
+		}
+		for _, s := range c.pf1Sites(f) {
+			fmt.Printf("%s\t%s\t%s\t%s\n", f.Name, s.kind, s.raw, s.expr)
+		}
+	}
 }
